@@ -188,3 +188,25 @@ Definition name_payload (dec32 : bytes -> option bytes) (domain : name) (n : nam
   | None => None
   | Some prefix => dec32 (upper (concat prefix))
   end.
+
+(* ---- Name.String: the key of the builder's name cache in the Go code ----
+   Labels separated by dots; bytes outside [0-9A-Za-z-] are written as \xXX (lower-case hex). *)
+Definition is_plain (b : byte) : bool :=
+  (b =? 45) || ((48 <=? b) && (b <=? 57)) || ((65 <=? b) && (b <=? 90)) || ((97 <=? b) && (b <=? 122)).
+Definition hexdigit (v : N) : byte := if v <? 10 then 48 + v else 87 + v.
+Definition esc_byte (b : byte) : bytes :=
+  if is_plain b then [b] else [92; 120; hexdigit (b / 16); hexdigit (b mod 16)].
+Definition esc_label (l : label) : bytes := flat_map esc_byte l.
+Definition dotted (r : name) : bytes := flat_map (fun l => 46 :: esc_label l) r.
+Definition name_string (n : name) : bytes :=
+  match n with
+  | [] => [46]
+  | l :: r => esc_label l ++ dotted r
+  end.
+
+(* the cache lookup as the Go code performs it: comparing the rendered strings *)
+Fixpoint cache_find_str (c : cache) (k : name) : option (N * N) :=
+  match c with
+  | [] => None
+  | e :: r => if bytes_eqb (name_string (ce_key e)) (name_string k) then Some (ce_off e, ce_depth e) else cache_find_str r k
+  end.
